@@ -181,6 +181,49 @@ def build_model():
     return exe
 
 
+def xcheck(model_exe):
+    """The slice coq/XCheck.v evaluated twice: by vm_compute inside coqc and by the extracted program.
+    Returns (ok, detail)."""
+    d = tempfile.mkdtemp(prefix="xcheck_", dir=ensure_build())
+    try:
+        src = os.path.join(d, "XEval.v")
+        open(src, "w").write("From Coq Require Import NArith List.\nImport ListNotations.\nFrom Lhasa Require Import XCheck.\n"
+                             "Local Open Scope N_scope.\nEval vm_compute in xcheck_all.\n")
+        rc, out = sh(["coqc", "-Q", COQ, "Lhasa", src], cwd=d, timeout=600)
+        if rc != 0:
+            return False, "coqc could not evaluate xcheck_all: " + out[-600:]
+        body = out[out.index("=") + 1:out.rindex(":")] if "=" in out and ":" in out else ""
+        coq_val = [[int(x) for x in re.findall(r"\d+", row)] for row in re.findall(r"\[([^\[\]]*)\]", body)]
+        ml = run_lines([model_exe], ["xcheck"])[0][0]
+        ml_val = [[int(x) for x in row.split(",") if x] for row in ml.split(";")]
+        if not coq_val or coq_val != ml_val:
+            return False, "vm_compute and the extracted program disagree on xcheck_all: coq=%r ocaml=%r" % (coq_val[:3], ml_val[:3])
+        return True, "%d rows, %d numbers" % (len(coq_val), sum(len(r) for r in coq_val))
+    finally:
+        shutil.rmtree(d, ignore_errors=True)
+
+
+def coqchk(pid, timeout=1800):
+    """Second checker: coqchk re-checks Properties_<pid>.vo and everything it depends on and lists the axioms.
+    Returns (ok, axioms, detail)."""
+    rc, out = sh(["coqchk", "-o", "-silent", "-Q", COQ, "Lhasa", "Lhasa.Properties_%s" % pid], cwd=COQ, timeout=timeout)
+    axioms = []
+    grab = False
+    for line in out.splitlines():
+        if line.strip().startswith("* Axioms:"):
+            grab = True
+            rest = line.split(":", 1)[1].strip()
+            if rest and rest != "<none>":
+                axioms.append(rest)
+            continue
+        if grab:
+            if line.startswith("    ") and line.strip():
+                axioms.append(line.strip())
+            else:
+                grab = False
+    return rc == 0, axioms, out[-1500:]
+
+
 SAN = ["-O1", "-g", "-fsanitize=address,bounds,null", "-fno-sanitize-recover=all",
        "-fno-omit-frame-pointer"]
 
